@@ -133,6 +133,10 @@ func runC11(c *Ctx) {
 	checkMergeResultsDrained(c, "R11.11")
 	// what the live identity answers is what is read back from git: a new version never rewrites a committed one in memory (shared with C09)
 	checkCloneDeep(c)
+	{
+		lw := newLockWorld(w)
+		checkExcerptUnderLock(c, lw, lockScopeFns(w))
+	}
 	// removal and rebuild leave nothing behind in memory either (shared with C14)
 	checkRemovalSteps(c)
 	checkRebuildAndCLIRemoval(c)
